@@ -32,10 +32,20 @@ def run(tier, seed):
     if len(covered) != nshapes:
         raise vlib.Inconclusive("harness covered %d shapes, grammar has %d" % (len(covered), nshapes))
     rep.exhaustive = False
+    # what real nodes re-embed (votes in a NEW_VIEW, PREPAREs in a prepared proof) still verifies when re-read from the bytes sent
+    from props import cluster
+    rep.assumptions += cluster.ASSUME
+    cluster.judge(rep, PID, tier, 0, args={"scenarios": True, "seed": 0}, what="directed schedules (attack library): re-embedded signed parts")
+    a = dict(cluster.gen_args(tier, seed))
+    a["runs"] = a["runs"] // 3
+    cluster.judge(rep, PID, tier, seed, args=a)
     return rep.finish()
 
 
 def replay(path, seed):
     # a C20 violation is deterministic in (seed): re-run the quick tier with the recorded seed
     payload = json.load(open(path))
+    if payload.get("kind") == "cluster-run":
+        from props import cluster
+        return cluster.simple_replay(PID, path, seed)
     return run("quick", payload.get("seed", seed))
